@@ -15,13 +15,17 @@ CONSTANTS
   MaxAbsent = %d
   GroupProduct = %s
   OddAll = %s
+  MaxSeq = %d
 INVARIANTS Theorems Dump
 CHECK_DEADLOCK FALSE
-""" % (("some", 2, "FALSE", "FALSE") if quick else ("all", 3, "TRUE", "TRUE"))
+""" % (("some", 2, "FALSE", "FALSE", 3) if quick else ("all", 3, "TRUE", "TRUE", 4))
 
 
 def compact(e):
     out = {k: e[k] for k in ("event", "kind", "src") if k in e}
+    if e["event"] == "Life":
+        out["steps"] = [[st["o"], st["f"], st["h"][:12]] for st in e["steps"]]
+        return out
     if e["event"] == "RoundTrip":
         out.update({"cls": e["cls"], "inter": e["inter"], "pass1": e["pass1"]["res"], "pass2": e["pass2"]["res"],
                     "h0": e["h0"][:16], "h1": e["h1"][:16], "h2": e["h2"][:16]})
@@ -70,6 +74,7 @@ def run(ctx):
     rt_obj, parse_res, srcs = {}, {}, {}
     prod = nonprod = parsed_objects = 0
     classes_seen, cards, inters = set(), set(), {}
+    lives, mutated = {}, set()
     distinct = set()
     samples, seen = [], set()
     for e in iter_events(traces):
@@ -79,6 +84,13 @@ def run(ctx):
         if key not in seen and len(samples) < 12:
             seen.add(key)
             samples.append(compact(e))
+        if e["event"] == "Life":
+            lives[k] = lives.get(k, 0) + 1
+            for st in e["steps"]:
+                if st["o"] == "M":
+                    mutated.add((k, st["f"]))
+            distinct.add(("life", k, json.dumps([[st["o"], st["f"]] for st in e["steps"]])))
+            continue
         if e["event"] == "RoundTrip":
             if e["pass1"]["res"] == "object" and e["pass2"]["res"] == "object":
                 rt_obj[k] = rt_obj.get(k, 0) + 1
@@ -110,6 +122,8 @@ def run(ctx):
             and ("header", "#EvictedTxs", 200) in cards, "cardinality boundaries not exercised: %s" % sorted(cards)[:8], ctx=ctx)
     require(inters.get("same-goroutine", 0) > 10 and inters.get("other-goroutine", 0) > 10 and nconc > 5000,
             "retention / concurrency families hardly ran: %s, %d concurrent passes" % (inters, nconc), ctx=ctx)
+    require(min(lives.get(k, 0) for k in ("header", "tx", "gheader")) > 50 and len({f for k, f in mutated if k == "header"}) == 19,
+            "object lives hardly ran or not every header field was changed: %s, %d header fields" % (lives, len({f for k, f in mutated if k == "header"})), ctx=ctx)
     require(len(classes_seen) > 200, "few field classes instantiated (%d)" % len(classes_seen), ctx=ctx)
     require(events == nev, "events judged (%d) != events recorded (%d)" % (events, nev), ctx=ctx)
     coverage = {
@@ -122,7 +136,9 @@ def run(ctx):
                 "header x group subsets, blocks and transaction lists; repeated fields at 0, 1, 2, limit-1, limit, limit+1 elements for the limits "
                 "the node enforces (200 transactions per block, 5..10 group members); a retention family (serialise, keep the bytes, serialise "
                 "another value on the same / another goroutine, then parse the kept bytes) for every Marshal* function incl. Member; a "
-                "concurrency family (8 goroutines serialise and parse different values of a kind at once, GOMAXPROCS all cores and 1); and the same patterns with odd field contents (signature not 65 bytes, "
+                "concurrency family (8 goroutines serialise and parse different values of a kind at once, GOMAXPROCS all cores and 1); lives of "
+                "one object (header, transaction, group header): every order of GenHash / value copy / field change up to 0 steps, the "
+                "changes walking through all fields, then Hash := GenHash(), wire, GenHash; and the same patterns with odd field contents (signature not 65 bytes, "
                 "hashes of the wrong length, non-JSON in JSON-carrying fields, empty prove value); plus seeded random values, random byte strings and mutated "
                 "encodings. distinct_nontrivial: distinct class combinations, distinct presence patterns, and distinct random/mutated "
                 "inputs that were not plain parse errors" % ("selected" if quick else "all", 2 if quick else 3),
@@ -135,6 +151,7 @@ def run(ctx):
         "events_by_source": srcs,
         "tlc_cases": {"class_combinations": nrt, "presence_patterns": npres},
         "field_classes_instantiated": len(classes_seen),
+        "object_lives": lives,
         "cardinality_points": sorted("%s/%s=%d" % c for c in cards),
         "round_trips_by_interleaving": inters,
         "concurrent_passes": nconc,
